@@ -10,6 +10,7 @@ import (
 	"verifharness/hist"
 	"verifharness/run"
 	"verifharness/sim"
+	"verifharness/xport"
 )
 
 // C07: the replica handshake asks the master for exactly the configured stream.
@@ -127,7 +128,7 @@ func checkConnCommands(cl sim.ConnSnap, serverID uint32, want hist.Pos) (string,
 }
 
 func checkC07(c *core.Ctx) {
-	c.SetRule("configurations: server ids {0,1,2^31-1,2^31,2^32-1,random} x file names {1 byte, 255 bytes, dots, digits, spaces, UTF-8, random printable} x offsets {4,2^31-1,2^31,2^32-1,random} (half chosen so that no byte of the offset equals the byte of the server id at the same position), sequences of 1..4 attempts on one streamer with SetBinlogPosition or the stored position in between; the master answers the dump with EOF; plus real histories streamed to EOF and a second attempt that must request the stored resume position. Oracle on every connection: SET @master_binlog_checksum before the dump, exactly one dump per Stream call (over all connections it opened), blocking flag, server id, file bytes, uint32 offset. distinct by configuration; non-trivial iff offset != 4 or server id >= 2^31 or >= 2 attempts")
+	c.SetRule("configurations: server ids {0,1,2^31-1,2^31,2^32-1,random} x file names {1 byte, 255 bytes, dots, digits, spaces, UTF-8, random printable} x offsets {4,2^31-1,2^31,2^32-1,random} (half chosen so that no byte of the offset equals the byte of the server id at the same position), sequences of 1..4 attempts on one streamer with SetBinlogPosition or the stored position in between; the master answers the dump with EOF; plus real histories streamed to EOF and a second attempt that must request the stored resume position; plus one or two attempts that fail before the dump request (8 kinds: refused dial, broken / refused handshake, rejected or unanswered SET, failed write of the dump command) followed by an attempt that must request the position that was set. Oracle on every connection: SET @master_binlog_checksum before the dump, exactly one dump per Stream call (over all connections it opened), blocking flag, server id, file bytes, uint32 offset. distinct by configuration; non-trivial iff offset != 4 or server id >= 2^31 or >= 2 attempts")
 	if c.Replay != "" {
 		var w struct {
 			Witness struct {
@@ -138,7 +139,26 @@ func checkC07(c *core.Ctx) {
 			c.Inconclusive("cannot read witness: " + err.Error())
 			return
 		}
-		c07Run(c, w.Witness.Scenario)
+		var m struct {
+			Witness struct {
+				Scenario struct {
+					Mode  string `json:"mode"`
+					Index int    `json:"index"`
+					Hist  int    `json:"hist"`
+				} `json:"scenario"`
+			} `json:"witness"`
+		}
+		_ = readWitness(c.Replay, &m)
+		switch m.Witness.Scenario.Mode {
+		case "set-rejected":
+			c07SetRejected(c, m.Witness.Scenario.Index)
+		case "failed-before-dump":
+			c07FailedBeforeDump(c, m.Witness.Scenario.Index)
+		case "stored":
+			c07Stored(c, m.Witness.Scenario.Hist-3000)
+		default:
+			c07Run(c, w.Witness.Scenario)
+		}
 		return
 	}
 	n := c.N(1500, 240000)
@@ -156,6 +176,11 @@ func checkC07(c *core.Ctx) {
 	for idx := 0; idx < c.N(100, 4000); idx++ {
 		if c.Mine(idx) {
 			c07SetRejected(c, idx)
+		}
+	}
+	for idx := 0; idx < c.N(160, 4000); idx++ {
+		if c.Mine(idx) {
+			c07FailedBeforeDump(c, idx)
 		}
 	}
 }
@@ -198,6 +223,76 @@ func c07SetRejected(c *core.Ctx, idx int) {
 	}
 	if key, msg := checkConnCommands(res2.Conn.Snapshot(), scn.ServerID, scn.Attempts[0]); key != "" {
 		c.Violation("c07:after-rejected-set:"+key, "attempt after a rejected SET: "+msg, witnessOf(map[string]interface{}{"mode": "set-rejected", "index": idx}, nil, s, nil))
+	}
+}
+
+// c07FailedBeforeDump: an attempt that fails before its dump request was sent
+// (or received) must not disturb the streamer's position: the following attempt
+// requests exactly the position that was set.
+func c07FailedBeforeDump(c *core.Ctx, idx int) {
+	scn := c07Scenario(c, 200000+idx)
+	scn.Attempts = scn.Attempts[:1]
+	empty := &hist.Layout{}
+	s, err := run.NewSession(empty, nil, scn.ServerID, scn.Attempts[0], true)
+	if err != nil {
+		c.Inconclusive("cannot start master: " + err.Error())
+		return
+	}
+	defer s.Close()
+	for _, g := range run.LibGoroutines(nil) {
+		s.Abandon(g.ID)
+	}
+	kind := preconnKinds[idx%len(preconnKinds)]
+	scr := &sim.Script{AnyPosEOF: true}
+	var xo *xport.Options
+	switch kind {
+	case "connect-refused":
+		xo = &xport.Options{FailDial: true}
+	case "handshake-garbage":
+		scr.Handshake = "garbage"
+	case "handshake-close":
+		scr.Handshake = "close"
+	case "handshake-err":
+		scr.Handshake = "errhello"
+	case "auth-err":
+		scr.Handshake = "autherr"
+	case "set-rejected":
+		scr.SetReject = true
+	case "set-close":
+		scr.SetClose = true
+	case "dump-write-fail":
+		xo = &xport.Options{FailWriteN: 3} // writes: handshake response, SET query, dump request
+	}
+	if kind != "connect-refused" {
+		s.M.SetScripts(scr)
+	}
+	s.M.SetDefault(&sim.Script{AnyPosEOF: true})
+	nfail := 1 + idx/len(preconnKinds)%2
+	for i := 0; i < nfail; i++ {
+		res := s.Attempt(run.NoFaults(), xo, maxWait)
+		if res.Verdict != run.Returned {
+			c.Cell("stream-not-returned(reported under C05)")
+			return
+		}
+		s.CallError(maxWait)
+		if kind != "connect-refused" && i+1 < nfail {
+			s.M.SetScripts(scr)
+		}
+	}
+	c.Case(core.Hash64([]byte(fmt.Sprint("failed-before-dump", scn, kind, nfail))), true)
+	c.Cell("failed-before-dump:" + kind)
+	res2 := s.Attempt(run.NoFaults(), nil, maxWait)
+	if res2.Verdict != run.Returned {
+		c.Cell("stream-not-returned(reported under C05)")
+		return
+	}
+	wit := witnessOf(map[string]interface{}{"mode": "failed-before-dump", "index": idx, "kind": kind}, nil, s, nil)
+	if res2.Conn == nil || res2.DumpsMade != 1 {
+		c.Violation("c07:after-failed-attempt:dump-requests", fmt.Sprintf("attempt after %d attempt(s) that failed by %s: %d dump requests (Stream returned %s)", nfail, kind, res2.DumpsMade, errStr(res2.Err)), wit)
+		return
+	}
+	if key, msg := checkConnCommands(res2.Conn.Snapshot(), scn.ServerID, scn.Attempts[0]); key != "" {
+		c.Violation("c07:after-failed-attempt:"+key, fmt.Sprintf("attempt after %d attempt(s) that failed by %s: %s", nfail, kind, msg), wit)
 	}
 }
 
